@@ -48,3 +48,27 @@ G0_vec = [
 ]
 
 LAYERS = [('G0_vec', G0_vec)]
+
+ARC2, ARC3 = O('Arc2D'), O('Arc3D')
+SPH, CONE, CYL = O('Sphere'), O('Cone'), O('Cylinder')
+
+
+def transforms2d(cls, t):
+    return [r(cls + '.move', [t, V2]), r(cls + '.rotate', [t, Q, P2]), r(cls + '.reflect', [t, V2, P2]),
+            r(cls + '.scale', [t, Q, P2])]
+
+
+def transforms3d(cls, t):
+    return [r(cls + '.move', [t, V3]), r(cls + '.rotate', [t, V3, Q, P3]), r(cls + '.rotate_xy', [t, Q, P3]),
+            r(cls + '.reflect', [t, V3, P3]), r(cls + '.scale', [t, Q, P3])]
+
+
+G1_shapes = (transforms2d('LineSegment2D', SEG2) + transforms2d('Ray2D', RAY2)
+             + transforms3d('LineSegment3D', SEG3) + transforms3d('Ray3D', RAY3)
+             + [r('Plane.__init__', [V3, P3], name='Plane_init'), r('Plane.__init__', [V3, P3, V3], name='Plane_init_x')]
+             + transforms3d('Plane', PLANE) + [r('Plane.flip', [PLANE]), r('Plane.xyz_to_xy', [PLANE, P3]),
+                                               r('Plane.xy_to_xyz', [PLANE, P2])]
+             + transforms3d('Sphere', SPH) + transforms3d('Cone', CONE) + transforms3d('Cylinder', CYL)
+             + transforms2d('Arc2D', ARC2) + transforms3d('Arc3D', ARC3))
+
+LAYERS = [('G0_vec', G0_vec), ('G1_shapes', G1_shapes)]
